@@ -38,6 +38,11 @@ func cAbsUpper(a cplx) *big.Float {
 	return r.Add(r, newF().Abs(a.im))
 }
 
+// cMaxComp returns max(|re|, |im|) <= |z|.
+func cMaxComp(a cplx) *big.Float {
+	return fMax(newF().Abs(a.re), newF().Abs(a.im))
+}
+
 // rootsOfUnity returns exp(2 pi i k / m) for k = 0..m-1, m a power of two >= 4.
 var rootCache = map[int][]cplx{}
 
